@@ -34,7 +34,7 @@ fn main() {
         }
         i += 1;
     }
-    if prop != "SHOW" && prop != "PROBE" && prop != "TRANSLATE" && prop != "IMG" { std::fs::create_dir_all(&outdir).unwrap(); }
+    if prop != "SHOW" && prop != "PROBE" && prop != "TRANSLATE" && prop != "TABREF" && prop != "IMG" { std::fs::create_dir_all(&outdir).unwrap(); }
     // panics are outcomes, not noise
     if std::env::var("QV_DEBUG").is_err() { common::install_panic_recorder(); }
     if prop == "IMG" {
@@ -49,6 +49,7 @@ fn main() {
         return;
     }
     if prop == "PROBE" { common::install_panic_recorder(); c17::probe(&outdir, args.get(3).map(|s| s.as_str()).unwrap_or("postgresql")); return; }
+    if prop == "TABREF" { c15::tabref(&outdir, args.get(3).map(|s| s.as_str()).unwrap_or("sch.t1")); return; }
     if prop == "TRANSLATE" { c17::show(&outdir, args.get(3).map(|s| s.as_str()).unwrap_or("postgresql")); return; }
     if prop == "SHOW" {
         // developer aid: qvh SHOW "<sql>" [dp|pup|plain]
